@@ -51,7 +51,7 @@ var _ RawRegister32 = ParseTXTSInitSize(0)
 // ReadTXTSInitBase reads a TXTSInitSize register from TXT config
 func ReadTXTSInitSize(data TXTConfigSpace) (TXTSInitSize, error) {
 	var u32 uint32
-	buf := bytes.NewReader(data[TXTSINITSizeRegisterOffset:])
+	buf := bytes.NewReader(data.from(TXTSINITSizeRegisterOffset))
 	err := binary.Read(buf, binary.LittleEndian, &u32)
 	if err != nil {
 		return 0, err
